@@ -15,6 +15,11 @@ fn main() {
         }
         return;
     }
+    if a[1] == "--sweep" {
+        std::panic::set_hook(Box::new(|_| {}));
+        analyzer_k::c17::sweep();
+        return;
+    }
     let draws = analyzer_k::src::parse_draws(a.get(2).map(|s| s.as_str()).unwrap_or(""));
     let mut rec = analyzer_k::src::Rec::new(draws);
     let name = a[1].clone();
